@@ -31,6 +31,14 @@ CHECKS = {
    technique="fault kind x position enumeration over recorded BMC/PDR solver conversations, injected by the reference solver",
    text="For every response-bearing command of the recorded conversations and every fault kind (error replies of all critical lengths, unknown, empty, truncated+exit, exit 0/1, balanced and unbalanced garbage) one run is made with exactly that fault; the engine must return Err/Unknown, never a verdict, never panic or hang, and carry the solver's message verbatim.",
    note="Trusted: refsmt fault injector; termination observed as return within a deadline (twice)."),
+ "C05": dict(level="exploration", engine="drv-smt", design="§4 C05",
+   technique="bounded-exhaustive term enumeration; writer output checked by a strict SMT-LIB reference front end (sort checker + evaluator) under exhaustive/boundary assignments",
+   text="Every term of the stated alphabet (all 35 operators, 1-bit and wider operands in every argument position, arrays with Bool index/data) is written inside every command kind by serialize_cmd; the text must be accepted with the expected sorts by a strict SMT-LIB 2.6 front end and denote the same value as the expression under every assignment of a stated finite value space; symbol names of every lexical class are swept separately.",
+   note="Trusted: smtref strict front end and evaluator, pvcore reference evaluator."),
+ "C14": dict(level="exploration", engine="drv-smt", design="§4 C14",
+   technique="bounded-exhaustive enumeration of writer outputs and of grammar-generated model values with all prefix / single-parenthesis mutations, fed end to end through the real solver pipe",
+   text="Every writer output of the C05 space is read back by parse_expr and compared semantically; every command the writer can emit must survive write-read-write; grammar-generated model values (literals, const arrays, store chains, lets) are returned by a scripted reference solver to the real SolverContext::get_value and must be read as the value the strict front end assigns; every proper prefix and single-parenthesis mutation must yield an error or the unchanged value.",
+   note="Trusted: smtref strict front end. Leniency that still yields the right value is tolerated."),
 }
 
 NOT_YET = {}
@@ -67,6 +75,7 @@ def main():
         },
         "engines": [
             {"name": "drv-mc", "path": "/verif/harness/drv-mc", "serves_properties": ["C02", "C03", "C04", "C10", "C15"], "kind_free_text": "real bmc/pdr/encoding run in worker subprocesses against the reference solver refsmt (smtref crate) placed first on PATH under the real solvers' names; explicit-state oracle pvcore::tsref"},
+            {"name": "drv-smt", "path": "/verif/harness/drv-smt", "serves_properties": ["C05", "C14"], "kind_free_text": "term/command/model-value enumeration against the strict reference SMT-LIB front end smtref"},
             {"name": "drv-expr", "path": "/verif/harness/drv-expr", "serves_properties": ["C01", "C06", "C12", "C13"], "kind_free_text": "bounded-exhaustive enumeration of terms / construction histories over the real expression code"},
         ],
         "checks": checks,
